@@ -5,6 +5,7 @@
 use crate::sexp::{self, Sexp};
 use jsonpath_rust::query::js_path_process;
 use jsonpath_rust::query::queryable::Queryable;
+use jsonpath_rust::JsonPath;
 use serde_json::Value;
 use std::borrow::Cow;
 use std::collections::HashMap;
@@ -344,6 +345,63 @@ pub fn run_genu(ast: &str, doc: &str) -> Result<String, String> {
             (a == b) as u8
         )),
         (Err(_), Err(_)) => Ok("ERR".to_string()),
+        _ => Ok("MIXED".to_string()),
+    }
+}
+
+
+/// the public string API over the second representation: `JsonPath` is implemented with its provided methods only, as
+/// any user type would
+impl JsonPath for V {}
+
+/// evaluates the query STRING through the three entry points of `JsonPath` over the second representation and over
+/// serde_json::Value; reports the former, with same=1 when all agree (both styles of the second representation, the
+/// three entry points, and Value)
+pub fn run_gens(text: &str, doc: &str) -> Result<String, String> {
+    let text = crate::cps_to_string(&sexp::parse(text)?)?;
+    let d: Value = crate::doc_of(&sexp::parse(doc)?)?;
+    let v = to_v(&d);
+    let mut index = HashMap::new();
+    index_v(&v, "$".to_string(), &mut index);
+    let mut vindex = HashMap::new();
+    crate::index_doc(&d, "$".to_string(), &mut vindex);
+    let run = |disjoint: bool| -> Result<(Vec<(String, String)>, bool), ()> {
+        DISJOINT.store(disjoint, Ordering::Relaxed);
+        let r = (|| {
+            let wp = v.query_with_path(&text).map_err(|_| ())?;
+            let items: Vec<(String, String)> = wp
+                .into_iter()
+                .map(|r| {
+                    let path = r.clone().path();
+                    (index.get(&(r.val() as *const V as usize)).cloned().unwrap_or_else(|| "FOREIGN".to_string()), path)
+                })
+                .collect();
+            let vals = v.query(&text).map_err(|_| ())?;
+            let paths = v.query_only_path(&text).map_err(|_| ())?;
+            let entry = vals.len() == items.len()
+                && paths.len() == items.len()
+                && vals.iter().zip(items.iter()).all(|(x, (l, _))| index.get(&(*x as *const V as usize)) == Some(l))
+                && paths.iter().zip(items.iter()).all(|(p, (_, q))| p == q);
+            Ok((items, entry))
+        })();
+        DISJOINT.store(false, Ordering::Relaxed);
+        r
+    };
+    let dv: Result<Vec<(String, String)>, ()> = d.query_with_path(&text).map_err(|_| ()).map(|rs| {
+        rs.into_iter()
+            .map(|r| {
+                let path = r.clone().path();
+                (vindex.get(&(r.val() as *const Value as usize)).cloned().unwrap_or_else(|| "FOREIGN".to_string()), path)
+            })
+            .collect()
+    });
+    match (run(true), run(false), dv) {
+        (Ok((a, ea)), Ok((b, eb)), Ok(dvi)) => Ok(format!(
+            "OK\t{}\tsame={}",
+            b.iter().map(|(l, p)| format!("{}|{}", l, cps(p))).collect::<Vec<_>>().join(" "),
+            (a == b && b == dvi && ea && eb) as u8
+        )),
+        (Err(_), Err(_), Err(_)) => Ok("PARSE_ERR".to_string()),
         _ => Ok("MIXED".to_string()),
     }
 }
